@@ -640,4 +640,15 @@ impl Cache {
 #[allow(missing_docs, unused_imports, dead_code, clippy::all, clippy::pedantic, clippy::nursery)]
 pub mod verif_hooks {
     use super::*;
+    pub use super::{Cache, CachedBackend};
+
+    /// A [`Cache`] rooted directly at `path` (what `Cache::new` yields after appending the repository id).
+    pub fn cache_at(path: PathBuf) -> Cache {
+        Cache { path }
+    }
+
+    /// `CachedBackend::new_cache` (the type lives in a crate-private module).
+    pub fn cached_backend(be: Arc<dyn WriteBackend>, cache: Cache) -> Arc<dyn WriteBackend> {
+        CachedBackend::new_cache(be, cache)
+    }
 }
